@@ -3147,4 +3147,176 @@ theorem mergeEntry_keys [BEq κ] (f : Option (β → β → Out β)) (k : κ) (v
       | panic => rw [hm] at h; cases h
 
 
+/-! ## early exit: the callback is not called after the deciding element
+(`SeqAndMappedFoldBuiltin::run` / `run1` / `run2` are the same loop: whatever the call form —
+`any(xs, f)`, `xs any f`, a longer chain, `any(f)(xs)`, `flip(any)(f, xs)`, `x any= f` — the number
+of calls of `f` is the index of the deciding element + 1) -/
+
+/-- the instrumented loop computes the same result as the loop -/
+theorem seqFoldGoN_fst (f : α → Out β) (body : γ → β → Step γ) (s : γ) (n : Nat) (xs : List α) :
+    (seqFoldGoN f body s n xs).1 = seqFoldGo f body s xs := by
+  induction xs generalizing s n with
+  | nil => rfl
+  | cons x xs ih =>
+    simp only [seqFoldGoN, seqFoldGo]
+    cases f x with
+    | ok y => simp only []; cases hb : body s y <;> simp [ih]
+    | throw => rfl
+    | panic => rfl
+
+/-- **any_short_circuits**: when `p` is false on `pre` and true on `x`, `any` answers true after
+exactly `pre.length + 1` calls — whatever follows (`post` is never evaluated: it may even contain
+elements on which `p` raises) -/
+theorem any_short_circuits (p : α → Out Bool) (pre : List α) (x : α) (post : List α)
+    (hpre : ∀ y ∈ pre, p y = .ok false) (hx : p x = .ok true) (n : Nat) :
+    seqFoldGoN p anyBody false n (pre ++ x :: post) = (.ok true, n + pre.length + 1) := by
+  induction pre generalizing n with
+  | nil => simp [seqFoldGoN, hx, anyBody]
+  | cons y pre ih =>
+    have hy := hpre y (by simp)
+    simp only [List.cons_append, seqFoldGoN, hy, anyBody, Bool.false_eq_true, if_false]
+    rw [ih (fun z hz => hpre z (by simp [hz])) (n + 1)]
+    simp; omega
+
+/-- **all_short_circuits** -/
+theorem all_short_circuits (p : α → Out Bool) (pre : List α) (x : α) (post : List α)
+    (hpre : ∀ y ∈ pre, p y = .ok true) (hx : p x = .ok false) (n : Nat) :
+    seqFoldGoN p allBody true n (pre ++ x :: post) = (.ok false, n + pre.length + 1) := by
+  induction pre generalizing n with
+  | nil => simp [seqFoldGoN, hx, allBody]
+  | cons y pre ih =>
+    have hy := hpre y (by simp)
+    simp only [List.cons_append, seqFoldGoN, hy, allBody, Bool.not_true, Bool.false_eq_true, if_false]
+    rw [ih (fun z hz => hpre z (by simp [hz])) (n + 1)]
+    simp; omega
+
+/-- a raising element stops the fold as well, after being called once -/
+theorem any_stops_at_failure (p : α → Out Bool) (pre : List α) (x : α) (post : List α)
+    (hpre : ∀ y ∈ pre, p y = .ok false) (hx : p x = .throw) (n : Nat) :
+    seqFoldGoN p anyBody false n (pre ++ x :: post) = (.throw, n + pre.length + 1) := by
+  induction pre generalizing n with
+  | nil => simp [seqFoldGoN, hx]
+  | cons y pre ih =>
+    have hy := hpre y (by simp)
+    simp only [List.cons_append, seqFoldGoN, hy, anyBody, Bool.false_eq_true, if_false]
+    rw [ih (fun z hz => hpre z (by simp [hz])) (n + 1)]
+    simp; omega
+
+/-- without a deciding element every element is visited once -/
+theorem any_visits_all (p : α → Out Bool) (xs : List α) (h : ∀ y ∈ xs, p y = .ok false) (n : Nat) :
+    seqFoldGoN p anyBody false n xs = (.ok false, n + xs.length) := by
+  induction xs generalizing n with
+  | nil => rfl
+  | cons y xs ih =>
+    have hy := h y (by simp)
+    simp only [seqFoldGoN, hy, anyBody, Bool.false_eq_true, if_false]
+    rw [ih (fun z hz => h z (by simp [hz])) (n + 1)]
+    simp; omega
+
+/-- the results do not depend on what follows the deciding element -/
+theorem any_ignores_tail (p : α → Out Bool) (pre : List α) (x : α) (post : List α)
+    (hpre : ∀ y ∈ pre, p y = .ok false) (hx : p x = .ok true) : any p (pre ++ x :: post) = .ok true := by
+  have := congrArg Prod.fst (any_short_circuits p pre x post hpre hx 0)
+  rw [seqFoldGoN_fst] at this
+  exact this
+
+theorem all_ignores_tail (p : α → Out Bool) (pre : List α) (x : α) (post : List α)
+    (hpre : ∀ y ∈ pre, p y = .ok true) (hx : p x = .ok false) : all p (pre ++ x :: post) = .ok false := by
+  have := congrArg Prod.fst (all_short_circuits p pre x post hpre hx 0)
+  rw [seqFoldGoN_fst] at this
+  exact this
+
+theorem find_ignores_tail (p : α → Out Bool) (pre : List α) (x : α) (post : List α)
+    (hpre : ∀ y ∈ pre, p y = .ok false) (hx : p x = .ok true) : find p (pre ++ x :: post) = .ok (some x) := by
+  induction pre with
+  | nil => simp [find, hx]
+  | cons y pre ih => simp [find, hpre y (by simp), ih (fun z hz => hpre z (by simp [hz]))]
+
+theorem locate_ignores_tail (p : α → Out Bool) (pre : List α) (x : α) (post : List α)
+    (hpre : ∀ y ∈ pre, p y = .ok false) (hx : p x = .ok true) (i : Nat) :
+    locateGo p i (pre ++ x :: post) = .ok (some (i + pre.length)) := by
+  induction pre generalizing i with
+  | nil => simp [locateGo, hx]
+  | cons y pre ih =>
+    simp only [List.cons_append, locateGo, hpre y (by simp)]
+    rw [ih (fun z hz => hpre z (by simp [hz])) (i + 1)]
+    simp; omega
+
+theorem takeWhile_ignores_tail (p : α → Out Bool) (pre : List α) (x : α) (post : List α)
+    (hpre : ∀ y ∈ pre, p y = .ok true) (hx : p x = .ok false) : takeWhile p (pre ++ x :: post) = .ok pre := by
+  rw [takeWhile_eq]
+  induction pre with
+  | nil => simp [SeqSpec.takeWhileE, hx]
+  | cons y pre ih =>
+    simp [SeqSpec.takeWhileE, hpre y (by simp), ih (fun z hz => hpre z (by simp [hz]))]
+
+theorem dropWhile_ignores_tail (p : α → Out Bool) (pre : List α) (x : α) (post : List α)
+    (hpre : ∀ y ∈ pre, p y = .ok true) (hx : p x = .ok false) : dropWhile p (pre ++ x :: post) = .ok (x :: post) := by
+  induction pre with
+  | nil => simp [dropWhile, hx]
+  | cons y pre ih => simp [dropWhile, hpre y (by simp), ih (fun z hz => hpre z (by simp [hz]))]
+
+/-- the stop rule of the other early-exit builtins, as a count: index of the deciding element + 1 -/
+theorem callsUntil_decided (stop : Out β → Bool) (f : α → Out β) (pre : List α) (x : α) (post : List α)
+    (hpre : ∀ y ∈ pre, stop (f y) = false) (hx : stop (f x) = true) :
+    callsUntil stop f (pre ++ x :: post) = pre.length + 1 := by
+  induction pre with
+  | nil => simp [callsUntil, hx]
+  | cons y pre ih =>
+    simp only [List.cons_append, callsUntil, hpre y (by simp), Bool.false_eq_true, if_false,
+      ih (fun z hz => hpre z (by simp [hz])), List.length_cons]
+    omega
+
+
+theorem callsUntil_eq (stop : Out β → Bool) (f : α → Out β) (xs : List α) :
+    callsUntil stop f xs = (match xs.findIdx? fun x => stop (f x) with
+                            | some i => i + 1
+                            | none => xs.length) := by
+  induction xs with
+  | nil => rfl
+  | cons x xs ih =>
+    simp only [callsUntil, List.findIdx?_cons]
+    cases h : stop (f x) with
+    | true => simp
+    | false =>
+      simp only [Bool.false_eq_true, if_false, ih]
+      cases hq : List.findIdx? (fun x => stop (f x)) xs with
+      | none => simp [Nat.add_comm]
+      | some i => simp [Nat.add_comm]
+
+/-- the instrumented `any` loop counts exactly "up to and including the first element that is
+not plainly false" -/
+theorem any_calls (p : α → Out Bool) (xs : List α) (n : Nat) :
+    (seqFoldGoN p anyBody false n xs).2 = n + callsUntil (fun o => !isOkFalse o) p xs := by
+  induction xs generalizing n with
+  | nil => rfl
+  | cons x xs ih =>
+    simp only [seqFoldGoN, callsUntil]
+    cases hp : p x with
+    | ok b =>
+      cases b with
+      | false => simp [anyBody, isOkFalse, ih]; omega
+      | true => simp [anyBody, isOkFalse]
+    | throw => simp [isOkFalse]
+    | panic => simp [isOkFalse]
+
+theorem all_calls (p : α → Out Bool) (xs : List α) (n : Nat) :
+    (seqFoldGoN p allBody true n xs).2 = n + callsUntil (fun o => !isOkTrue o) p xs := by
+  induction xs generalizing n with
+  | nil => rfl
+  | cons x xs ih =>
+    simp only [seqFoldGoN, callsUntil]
+    cases hp : p x with
+    | ok b =>
+      cases b with
+      | true => simp [allBody, isOkTrue, ih]; omega
+      | false => simp [allBody, isOkTrue]
+    | throw => simp [isOkTrue]
+    | panic => simp [isOkTrue]
+
+/-- non-vacuity: `[1, 'a'] any (> 0)` is true although `'a' > 0` raises -/
+example : any (fun x : Option Nat => match x with | some n => .ok (decide (n > 0)) | none => .throw)
+    [some 1, none] = .ok true := by decide
+
+
 end Noulith.C13
